@@ -130,6 +130,40 @@ var setStrPool = []string{"", "x", "hello", "\"quoted\"\n", "é中", "\x00\x1f",
 // oneEdit applies one random in-place edit on document "p".
 func (c *opsCase) oneEdit(roots []*node) { c.oneEditOn(roots, "p") }
 
+// setStrOn replaces one two-entry scalar of the named document by the string val (SetString appends to the string
+// buffer); reports whether there was such a value.
+func (c *opsCase) setStrOn(roots []*node, pjName string, val string) bool {
+	c.pjName = pjName
+	defer func() { c.pjName = "" }()
+	var all, cand []*node
+	for _, rt := range roots {
+		if rt != nil {
+			all = rt.all(all)
+		}
+	}
+	for _, n := range all {
+		if n.kind == 'l' || n.kind == 'u' || n.kind == 'd' || n.kind == '"' {
+			cand = append(cand, n)
+		}
+	}
+	if len(cand) == 0 {
+		return false
+	}
+	n := cand[c.r.intn(len(cand))]
+	nav, ok := navOps(c.pj, "t", c.name(), n.off)
+	if !ok {
+		return false
+	}
+	for _, op := range nav {
+		c.emit(op)
+	}
+	c.emit("setstr t " + hx([]byte(val)))
+	c.expectLast("ok")
+	n.kind, n.render, n.children, n.keys = '"', "s"+hx([]byte(val)), nil, nil
+	c.emit("str t")
+	return true
+}
+
 // oneEditOn applies one random in-place edit on the named document (c.pj must be that document).
 func (c *opsCase) oneEditOn(roots []*node, pjName string) {
 	c.pjName = pjName
@@ -268,18 +302,15 @@ func (c *opsCase) oneEditOn(roots []*node, pjName string) {
 		var nk [][]byte
 		var nc []*node
 		visited := 0
-		done := false
 		var cbs []string
 		for i, ch := range n.children {
-			sel := !done && (filter == nil || filter[string(n.keys[i])])
+			// every member whose key is in the filter is selected, duplicates of a key included
+			sel := filter == nil || filter[string(n.keys[i])]
 			del := false
 			if sel {
 				cbs = append(cbs, fmt.Sprintf("%s:%d:%d", hx(n.keys[i]), cbTag(ch), ch.off+1))
 				del = maskPred(mask, visited)
 				visited++
-				if filter != nil && visited == len(filter) {
-					done = true
-				}
 			}
 			if !del {
 				nk = append(nk, n.keys[i])
@@ -849,6 +880,16 @@ func corpusOps(rn *runner) {
 		"parse p 1 1 " + hx([]byte("{\"a\":1}\n[2]")), "iter t p", "advinto t", "setnull t"}}
 	tc2.expect = map[int]string{3: "err"}
 	rn.add(tc2)
+	// D14 (fixed): DeleteElems with a key filter stopped after len(filter) matches; with a duplicate key the later
+	// member survived although "all elements in onlyKeys will be deleted"
+	if want, err := simdjson.Parse([]byte(`{"b":3}`), nil); err == nil {
+		ws, _ := owalk(want)
+		tc3 := &testCase{note: "delete-filter-duplicate-key", ops: []string{
+			"parse p 0 1 " + hx([]byte(`{"a":1,"a":2,"b":3}`)), "iter t p", "advinto t", "advinto t", "object o t",
+			fmt.Sprintf("delete o %d %s", uint64(1<<62-1), hx([]byte("a"))), "owalk p"}}
+		tc3.expect = map[int]string{6: ws}
+		rn.add(tc3)
+	}
 }
 
 func suiteOps(rn *runner, r *rng, tier string) {
